@@ -588,7 +588,11 @@ pub fn run_op(sh: &Arc<Shared>, o: &OpDesc) -> Value {
         }
         "stop" => {
             let t0 = Instant::now();
-            store.stop();
+            if o.via == "store" {
+                <TStore as Store<St, Act>>::stop(store); // through the Store trait
+            } else {
+                store.stop();
+            }
             // stop() gives up waiting after 3 s: a call that needed that is reported as such
             json!(if t0.elapsed() >= std::time::Duration::from_millis(2500) { "timeout" } else { "ok" })
         }
@@ -631,11 +635,16 @@ pub fn run_op(sh: &Arc<Shared>, o: &OpDesc) -> Value {
                     .via
                     .strip_prefix("fwd:")
                     .and_then(|k| sh.peers.lock().unwrap().get(k).cloned());
-                store.add_subscriber(Arc::new(SSubscriber {
+                let obj = Arc::new(SSubscriber {
                     id: o.s.clone(),
                     env: env.clone(),
                     fwd,
-                }))
+                });
+                if o.via == "store" {
+                    <TStore as Store<St, Act>>::add_subscriber(store, obj) // through the Store trait
+                } else {
+                    store.add_subscriber(obj)
+                }
             };
             sh.subscriptions
                 .lock()
@@ -650,15 +659,18 @@ pub fn run_op(sh: &Arc<Shared>, o: &OpDesc) -> Value {
                 pol: "block".into(),
             });
             sched().hint_chan(&format!("{}{}", env.prefix, o.s));
-            let r = store.subscribed_with(
-                c.cap,
-                policy(&c.pol),
-                Box::new(SSubscriber {
-                    id: o.s.clone(),
-                    env: env.clone(),
-                    fwd: None,
-                }),
-            );
+            let user = Box::new(SSubscriber {
+                id: o.s.clone(),
+                env: env.clone(),
+                fwd: None,
+            });
+            let r = if o.via == "store" {
+                <TStore as Store<St, Act>>::subscribed_with(store, c.cap, policy(&c.pol), user) // Store trait
+            } else if o.via == "default" {
+                store.subscribed(user) // default capacity (16) and BlockOnFull
+            } else {
+                store.subscribed_with(c.cap, policy(&c.pol), user)
+            };
             match r {
                 Ok(sub) => {
                     sh.subscriptions
